@@ -68,7 +68,12 @@ def main():
     res = one_call(job["input"])
     # further Parser.parse calls in the SAME process (a call must not depend on earlier calls)
     res["followups"] = [one_call(pairs) for pairs in job.get("followups", [])]
-    json.dump(res, sys.stdout)
+    # the result goes to a file: a parent that waits for the exit before it reads would dead-lock on a full pipe
+    if job.get("out"):
+        with open(job["out"], "w") as f:
+            json.dump(res, f)
+    else:
+        json.dump(res, sys.stdout)
 
 
 if __name__ == "__main__":
